@@ -138,6 +138,10 @@ func (g wgen) set(kind int) ovsdb.OvsSet {
 	seen := map[string]bool{}
 	for i := 0; i < n; i++ {
 		a := g.atom(kind)
+		if kind >= 4 && g.p.Bool() {
+			// references: rows that exist and rows inserted under a name, in one set
+			a = g.atom(9 - kind)
+		}
 		k := canonStr(a)
 		if seen[k] {
 			continue
